@@ -1,7 +1,17 @@
-(** C02 — A process crash at any point leaves every cache directory valid and usable. (interim) *)
+(** C02 — A process crash at any point leaves every cache directory valid and usable.
+
+    Kernel-checked here: (1) published contents survive any crash of any
+    participant and any later activity (all schedules); (2) debris can only sit in
+    `.kismet_temp` directories (all responses, any pool); (3) publication is
+    atomic at every crash point: when a plain set or put dies before ANY of its
+    calls (after a fault anywhere before), the key's name is bound to what it was
+    bound to, to nothing, or to the inode the source named - never to anything else
+    ([C02_publication_is_atomic_at_every_crash_point]), and the write paths change
+    no file contents, so either inode is complete.  Usability after the crash and
+    reclamation of stale debris: crash-point enumeration (vlib/c02.py). *)
 From Coq Require Import List NArith ZArith String Bool.
 Import ListNotations.
-From Kismet Require Import FS.Fs FS.Prog Ops.Ops Ops.Client Spec.ClassMon Spec.Calm Conc.Pool Conc.Effect Conc.Immut Proofs.PoolLift Proofs.DebrisInTemp.
+From Kismet Require Import Pure.Hash FS.Fs FS.Prog Ops.Ops Ops.Client Spec.ClassMon Spec.Calm Conc.Pool Conc.Effect Conc.Immut Proofs.PoolLift Proofs.DebrisInTemp Seq.Plain Proofs.KvSeq.
 (** A crash before the n-th call executes exactly the calls before it: the
     crashed run's trace is a prefix of the full run's trace. *)
 Theorem C02_crash_before_first_call : forall A (p : prog A) c k w o,
@@ -22,6 +32,17 @@ Theorem C02_crash_anywhere_keeps_published_contents :
   data (snd st1) i = Some D -> i < next_ino (snd st1) -> NoRW i (snd st1) ->
   data (snd (run_sched sched_after_crash st1)) i = Some D.
 Proof. exact @immutable_from_any_reachable_state. Qed.
+
+(** Publication is atomic at every crash point (sequential kernel model, any
+    directory contents, any maintenance, any injected fault before the crash). *)
+Theorem C02_publication_is_atomic_at_every_crash_point : forall d name v i0 j0 (which : bool) w o n,
+  plainp (cd_base d) = true -> valid_name name = true -> plainp v = true ->
+  (forall q, v <> cd_base d ++ q) -> (forall q, cd_base d <> v ++ q) ->
+  names_plain (w_fs w) -> name_of (w_fs w) v = Some i0 -> name_of (w_fs w) (cd_base d ++ [name]) = j0 ->
+  let '(w', _, _, _) := run_crash (if which then cd_set d name v else cd_put d name v) w o n in
+  name_of (w_fs w') (cd_base d ++ [name]) = j0 \/ name_of (w_fs w') (cd_base d ++ [name]) = None \/
+  name_of (w_fs w') (cd_base d ++ [name]) = Some i0.
+Proof. intros d name v i0 j0 which w o n Hb Hn Hv Ho Ha. exact (crash_anywhere_is_atomic d name v Hb Hn Hv Ho Ha i0 j0 which w o n). Qed.
 
 (** Whatever a participant has created when it stops - at ANY point of ANY
     schedule, crashed, frozen or finished - was created inside a directory named
@@ -51,3 +72,24 @@ Theorem C02_class_meaning : forall sys p m d,
   tmp_ok sys (CCreate p m) = has_temp p /\ tmp_ok sys (CCreateTrunc p m) = false /\
   tmp_ok sys (COpenTmp d) = (has_temp d || path_eqb d sys)%bool.
 Proof. intros. repeat split. Qed.
+
+(** Non-vacuity of the atomicity theorem: key "a" holds inode 2; set "a" <- "v"
+    (inode 3) killed before each of its first 12 calls: the name is bound to the
+    old inode at the early crash points and to the new one at the late ones,
+    nothing else ever. *)
+Example C02_atomic_example :
+  let mk (f : fs) (p : path) (c : N) :=
+    let '(f1, i) := alloc_inode f (mkInode false [c] 292 100%Z 50%Z 1 true) in
+    set_names f1 ((p, i) :: names f1) in
+  let '(f0, d) := alloc_inode empty_fs (mkInode true [] 493 0%Z 0%Z 2 true) in
+  let f0 := set_names f0 ((["w"%string], d) :: names f0) in
+  let f := mk (mk f0 ["w"; "a"]%string 65%N) ["v"%string] 66%N in
+  let o := mkOracle [1000; 1001; 1002]%Z [18446744073709551615%N] [] [] [] None 0 1%Z Relatime in
+  let at_crash n :=
+    let '(w', _, _, _) := run_crash (cd_set (plain_cdir ["w"%string] 300) "a" ["v"%string]) (mkWorld f 0 []) o n in
+    name_of (w_fs w') ["w"; "a"]%string in
+  let seen := map at_crash (seq 0 12) in
+  forallb (fun x => match x with Some 2%nat | Some 3%nat => true | _ => false end) seen = true /\
+  existsb (fun x => match x with Some 2%nat => true | _ => false end) seen = true /\
+  existsb (fun x => match x with Some 3%nat => true | _ => false end) seen = true.
+Proof. vm_compute. repeat split. Qed.
